@@ -432,7 +432,7 @@ impl Check for SynCheck {
     fn sanitizer_steps(&self, seed: u64, agg: &mut Agg) {
         // tree construction and cursor walks are unsafe rowan code, and lib.rs transmutes u16 -> SyntaxKind:
         // the C01 monitor under the Miri interpreter, then under ASan + libFuzzer
-        crate::sanit::miri("parse", seed, 16, 120, agg);
+        crate::sanit::miri("parse", seed, 16, 40, agg);
         let mode = self.mode;
         crate::sanit::fuzz("lossless", 90, agg, &move |bytes| {
             let text = String::from_utf8_lossy(bytes).to_string();
